@@ -40,7 +40,7 @@ RULE = (
 )
 ASSUMPTIONS = [
     "nesting counts containers on a path starting with the descendant segment's input node (depth 1); scalars add none",
-    "bounded time is judged by the step clock only: budget max(300000, 400 x reference walk work); cyclic values with "
+    "bounded time is judged by the step clock only: budget max(300000, 400 x (reference walk work + data size x segments [x limit for cyclic data]) + 8 x depth^2 x segments); cyclic values with "
     "branching are placed at L <= 6 (boundary) or L >= 50 (hang), not in between",
     "memory: what ordinary code allocates is bounded by the step budget; beyond that the evaluation runs under a 6 GiB address-space cap and a MemoryError inside it is a violation (peak memory below the cap is not judged)",
 ]
